@@ -32,6 +32,12 @@ for n in names:
         print(n, "DOES NOT APPLY")
         continue
     t0 = time.time()
+    # the run below rewrites evidence/<ID>.json and adds replay files for the SEEDED tree:
+    # keep what the unchanged tree produced and drop what this run adds
+    ev_path = os.path.join(ROOT, "evidence", pid + ".json")
+    ev_saved = open(ev_path).read() if os.path.exists(ev_path) else None
+    rp_dir = os.path.join(ROOT, "replays", pid)
+    rp_before = set(os.listdir(rp_dir)) if os.path.isdir(rp_dir) else set()
     try:
         p = subprocess.run(["./check", pid, "--tier", "quick"], cwd=ROOT, capture_output=True, text=True, timeout=1500)
         out = p.stdout + p.stderr
@@ -47,6 +53,11 @@ for n in names:
             classes.append(f"{d.get('kind') or 'obligation'}:{d.get('class') or (d.get('broken_obligations') or [{}])[0].get('what', '?')}" + (" [no-failing-input-found]" if "no-failing-input-found" in m.group(2) else ""))
         except Exception:  # noqa: BLE001
             classes.append("unreadable-replay")
+    if ev_saved is not None:
+        open(ev_path, "w").write(ev_saved)
+    if os.path.isdir(rp_dir):
+        for f in set(os.listdir(rp_dir)) - rp_before:
+            os.remove(os.path.join(rp_dir, f))
     res[n] = {"property": pid, "applied": True, "repo_head": head, "exit": rc, "violations": len(classes),
               "classes": sorted(set(classes)), "wall_s": round(time.time() - t0, 1), "caught": rc == 1 and len(classes) > 0}
     print(n, "caught" if res[n]["caught"] else "MISSED", rc, sorted(set(classes))[:4], res[n]["wall_s"])
